@@ -60,9 +60,8 @@ func (t *MemTable) Delete(key []byte, seqNum uint64) (full bool) {
 func (t *MemTable) ScanPrefix(prefix []byte) iter.Seq[kv.Entry] {
 	return func(yield func(kv.Entry) bool) {
 		for node := range t.zt.AscendPrefix(prefix) {
-			if isDeleteOp(node) {
-				continue
-			}
+			// Tombstones are yielded too: they must mask older values of the key
+			// in sealed memtables and SST tables when the scans are merged.
 			if !yield(newEntryFromNode(node)) {
 				return
 			}
